@@ -9,7 +9,7 @@ def gen_migrate_ss(rng, big=False):
     return schedgen.gen_migrate(rng, big, self_suspend=True)
 
 
-FAMS = [schedgen.gen_basic, schedgen.gen_join, schedgen.gen_lifecycle, schedgen.gen_steal, schedgen.gen_spsc, schedgen.gen_mig_switch]
+FAMS = [schedgen.gen_basic, schedgen.gen_join, schedgen.gen_lifecycle, schedgen.gen_steal, schedgen.gen_spsc, schedgen.gen_mig_switch, schedgen.gen_replace_keep]
 NAME_RE = r"^(C01_|SchedPlace_invariant|C07_pop)"
 MANIFEST = {
     "text": "Theorems (Coq, every number of units/pools, every interleaving of the scheduler LTS whose labels are the ABT_VERIF hook "
